@@ -89,3 +89,51 @@ Qed.
 
 Theorem absdiffeq_sym a b eps : f_absdiffeq a b eps = f_absdiffeq b a eps.
 Proof. unfold f_absdiffeq. now rewrite fabs_fsub_sym. Qed.
+
+(* ---- symmetry of the scalar relative_eq ---- *)
+Lemma feq_sym a b : feq a b = feq b a.
+Proof.
+  unfold feq, Beqb, SpecFloat.SFeqb.
+  change (SpecFloat.SFcompare (B2SF a) (B2SF b)) with (fcmp a b). change (SpecFloat.SFcompare (B2SF b) (B2SF a)) with (fcmp b a).
+  rewrite (fcmp_swap a b). destruct (fcmp a b) as [[| |]|]; reflexivity.
+Qed.
+
+(* two non-negative (or NaN-free absolute) values that compare equal are the same float *)
+Lemma fabs_cmp_eq a b : fcmp (fabs a) (fabs b) = Some Eq -> fabs a = fabs b.
+Proof.
+  unfold fcmp, fabs.
+  destruct a as [sa|sa| |sa ma ea Ha], b as [sb|sb| |sb mb eb Hb];
+    try (cbn; intros H; (discriminate H || reflexivity)).
+  change (Babs (B754_finite sa ma ea Ha)) with (B754_finite false ma ea Ha).
+  change (Babs (B754_finite sb mb eb Hb)) with (B754_finite false mb eb Hb).
+  intros H. rewrite Bcompare_correct in H by reflexivity. inversion H as [E].
+  apply Rcompare_Eq_inv in E. apply B2R_inj; [reflexivity|reflexivity|exact E].
+Qed.
+
+Lemma largest_sym a b : is_nanb a = false -> is_nanb b = false ->
+  (if flt (fabs a) (fabs b) then fabs b else fabs a) = (if flt (fabs b) (fabs a) then fabs a else fabs b).
+Proof.
+  intros Na Nb.
+  assert (Oa : ok (fabs a)) by (unfold ok; destruct a; try discriminate; reflexivity).
+  assert (Ob : ok (fabs b)) by (unfold ok; destruct b; try discriminate; reflexivity).
+  destruct (fcmp_ok _ _ Oa Ob) as (c & Hc). destruct c.
+  - destruct (fcmp_eq _ _ Hc) as [L1 L2]. rewrite L1, L2. now apply fabs_cmp_eq.
+  - assert (L := fcmp_lt _ _ Hc). rewrite L. now rewrite (f_lt_trans_asym _ _ Oa Ob L).
+  - assert (L := fcmp_gt _ _ Hc). rewrite L. now rewrite (f_lt_trans_asym _ _ Ob Oa L).
+Qed.
+
+Lemma fsub_nan_l b : fsub fnan b = fnan.  Proof. destruct b; reflexivity. Qed.
+Lemma fsub_nan_r a : fsub a fnan = fnan.  Proof. destruct a; reflexivity. Qed.
+
+Theorem releq_sym a b eps rel : f_releq a b eps rel = f_releq b a eps rel.
+Proof.
+  unfold f_releq. rewrite (feq_sym b a), (orb_comm (is_infb b)), (fabs_fsub_sym b a).
+  destruct (feq a b); [reflexivity|]. destruct (is_infb a || is_infb b); [reflexivity|].
+  destruct (is_nanb a) eqn:Na.
+  - destruct a; try discriminate. rewrite fsub_nan_l. cbn [fabs Babs].
+    assert (N : forall z, fle fnan z = false) by (intros z; apply f_nan_cmp; now left). change B754_nan with fnan. now rewrite !N.
+  - destruct (is_nanb b) eqn:Nb.
+    + destruct b; try discriminate. rewrite fsub_nan_r. cbn [fabs Babs].
+      assert (N : forall z, fle fnan z = false) by (intros z; apply f_nan_cmp; now left). change B754_nan with fnan. now rewrite !N.
+    + now rewrite (largest_sym a b Na Nb).
+Qed.
